@@ -22,7 +22,33 @@ class C15(PropBase):
     quick_per_shard = 100
     thorough_per_shard = 2500
 
+    def limiter_run(self, rng):
+        """class-level run of a bare RateLimiter: update() and admitted hand-overs at arbitrary non-decreasing instants - time passes between the
+        update() of a pass and each hand-over, which the layer-level model (passes take no time) cannot exhibit.  This is the shape of run
+        the abstract theorem C15.window_bound quantifies over."""
+        w = rng.choice([0.05, 0.1, 0.013, 0.5, 1])
+        wns = math.floor(Fraction(float(w)) * 10**9)
+        P = rng.choice([8, 8, 64])
+        frames = rng.choice([1, 2, 5, 20])
+        br = math.ceil(frames * P * 8 / w) + rng.choice([0, 1, 7])
+        ops = [{'op': 'lim', 'what': 'new', 'bitrate': br, 'window': w, 'enabled': rng.random() < 0.9}]
+        t = 0
+        for _ in range(rng.choice([20, 60, 150])):
+            # one "pass": update, then a burst of hand-overs with the driver eating some time before / after each
+            t += rng.choice([0, 1000, SLOT - 1, SLOT + 1, wns // 7, wns // 2, wns - SLOT, wns, wns + 1, 3 * wns])
+            ops.append({'op': 'lim', 'what': 'update', 't': t})
+            cost = rng.choice([0, 0, 1000, SLOT // 5, SLOT + 1, wns // 3])
+            for _ in range(rng.choice([1, 2, 4, 10])):
+                t += rng.choice([0, cost])
+                ops.append({'op': 'lim', 'what': 'emit', 't': t, 'n': rng.choice([P, P, P - 1, 1, 3])})
+                t += rng.choice([0, cost])
+            if rng.random() < 0.02:
+                ops.append({'op': 'lim', 'what': 'reset'})
+        return {'ops': ops, 'family': 'limiter_run', 'lim': {'w': w, 'P': P}}
+
     def scenario(self, rng, tier):
+        if rng.random() < 0.15:
+            return self.limiter_run(rng)
         a, _ = gen.rand_addr_pair(rng, mode=rng.choice([0, 0, 1, 3, 6]), asym_prob=0)
         params = {}
         if rng.random() < 0.5:
@@ -86,9 +112,50 @@ class C15(PropBase):
         return sc
 
     def project(self, op_line, out_line):
+        if op_line.startswith('lim '):
+            return out_line
         return trace.project_events(out_line, keep=('tx',), status_keys=('th',))
 
+    def judge_limiter_run(self, sc, lines_in, impl_out):
+        out = []
+        new = lines_in[0].split()
+        enabled, W, M = new[2] == '1', int(new[3]), int(new[4])
+        frames = []
+        last_update = None
+        for li, lo in zip(lines_in, impl_out):
+            t = li.split()
+            if t[1] == 'reset':
+                frames = []         # reset() forgets the history on purpose (stop / reset of the layer)
+            elif t[1] == 'update':
+                last_update = int(t[2])
+            elif t[1] == 'emit':
+                now, n = int(t[2]), int(t[3])
+                if lo.startswith('emit=1'):
+                    frames.append((now, n))
+                elif not enabled:
+                    out.append(('disabled', 'disabled limiter refused %d bytes' % n))
+                elif last_update == now and not any(x >= now - W - SLOT for (x, _) in frames) and 8 * n <= M:
+                    out.append(('stall', '%d bytes refused at t=%d right after update() although nothing was handed over since t=%d' % (n, now, now - W - SLOT)))
+        if enabled:
+            L = W - SLOT
+            for i in range(len(frames)):
+                tot = mx = 0
+                for j in range(i, len(frames)):
+                    if frames[j][0] - frames[i][0] > L:
+                        break
+                    tot += 8 * frames[j][1]
+                    mx = max(mx, frames[j][1])
+                    if tot > M + 8 * mx:
+                        out.append(('bound', '%d bits accounted within %d ns starting at t=%d; limit %d + one frame (%d)' % (
+                            tot, frames[j][0] - frames[i][0], frames[i][0], M, 8 * mx)))
+                        break
+                if out:
+                    break
+        return out[:3]
+
     def judge(self, sc, lines_in, impl_out):
+        if sc.get('family') == 'limiter_run':
+            return self.judge_limiter_run(sc, lines_in, impl_out)
         cfg = trace.layer_cfg(sc)
         p = cfg['params']
         a = cfg['addr']
@@ -141,6 +208,10 @@ class C15(PropBase):
         return out[:3]
 
     def nontrivial_key(self, sc, lines_in, impl_out):
+        if sc.get('family') == 'limiter_run':
+            n1 = sum(1 for o in impl_out if o.startswith('emit=1'))
+            n0 = sum(1 for o in impl_out if o.startswith('emit=0'))
+            return ('limiter_run', lines_in[0], n1, n0) if n1 > 1 and n0 > 0 else None
         p = trace.layer_cfg(sc)['params']
         n = sum(o.count('tx@') for o in impl_out)
         if n < 2:
@@ -150,6 +221,10 @@ class C15(PropBase):
 
     def tally(self, dist, sc, lines_in, impl_out):
         PropBase.tally(self, dist, sc, lines_in, impl_out)
+        if sc.get('family') == 'limiter_run':
+            dist['limiter_runs'] = dist.get('limiter_runs', 0) + 1
+            dist['limiter_run_refusals'] = dist.get('limiter_run_refusals', 0) + sum(1 for o in impl_out if o.startswith('emit=0'))
+            return
         k = 'throttled_ops'
         dist[k] = dist.get(k, 0) + sum(1 for o in impl_out if 'th=1' in o)
         k = 'enabled' if trace.layer_cfg(sc)['params'].get('rate_limit_enable') else 'disabled'
